@@ -21,6 +21,9 @@ type VSCase struct {
 	Lattice int           `json:"lattice,omitempty"` // >0: number of lattice documents (IVF class)
 	Metric  string        `json:"metric,omitempty"`
 	Part    int           `json:"part,omitempty"`
+	// TwoFields: every lattice document also carries a vector in a second field w (the two
+	// fields TOGETHER then pass 1000 vectors while each stays below: each keeps an exact index)
+	TwoFields bool `json:"two,omitempty"`
 }
 
 func latticeBatch(n int, metric string) spec.Batch {
@@ -164,6 +167,14 @@ func runSmallVec(c enum.VecCase, a *run.Acc) {
 
 func runLattice(c VSCase, a *run.Acc) {
 	b := latticeBatch(c.Lattice, c.Metric)
+	if c.TwoFields {
+		for d := range b.Docs {
+			if len(b.Docs[d].Fields) > 0 && b.Docs[d].Fields[0].IsVector() {
+				v := b.Docs[d].Fields[0].Vec
+				b.Docs[d].Fields = append(b.Docs[d].Fields, spec.Field{Name: "w", Kind: spec.Vector, Vec: []float32{v[0] + 100, v[1]}, Dims: 2, Sim: c.Metric, Opt: "recall"})
+			}
+		}
+	}
 	exp := ref.FromBatch(b)
 	n := len(b.Docs)
 	fail := func(kind, msg string) {
@@ -260,7 +271,7 @@ func init() {
 	run.Register(&run.Def{
 		ID:          "C14",
 		Level:       "exploration",
-		Rule:        "bounded-exhaustive (vectors tag, stand-in engine): every batch of N<=3 (quick) / N<=4 (thorough) documents over a 9-entry vector cell menu (none; one of 5 grid points in dimension 2; two vectors as one concatenated value; two identical vectors; two field instances) x metrics {L2, dot product, cosine}; for EVERY exclusion bitmap a fresh in-memory and a fresh re-opened segment; queries = every grid point + one of wrong dimension; k in {1,2,3,10}; unfiltered search and filtered search with EVERY eligible subset (incl. empty, all, and sets intersecting the exclusion bitmap); requiresFiltering both; fields v, a second 3-dimensional field, an absent field. Exact-class oracle: the returned set of (doc, score) pairs is the image of SOME choice of the k best non-excluded eligible vectors (contains every pair strictly better than the k-th best score, nothing worse, tie count consistent), every pair is a true score of one of that document's vectors; wrong dimension / no vectors -> empty; num_vectors statistic == indexed vectors. Clustered class: a 1200-document lattice (IVF index) with exclusions {none, 4 docs, every third} x eligible sets {none(unfiltered), empty, 1 doc, just below / above one half (both selector kinds), sparse, all-but-one, all, exactly the documents that have a vector (the lattice ends with one document without), three quarters with a hole inside} x k in {1,10}: soundness only (true scores, not excluded, eligible, <= k). Non-trivial = batch with >= 2 vectors.",
+		Rule:        "bounded-exhaustive (vectors tag, stand-in engine): every batch of N<=3 (quick) / N<=4 (thorough) documents over a 9-entry vector cell menu (none; one of 5 grid points in dimension 2; two vectors as one concatenated value; two identical vectors; two field instances) x metrics {L2, dot product, cosine}; for EVERY exclusion bitmap a fresh in-memory and a fresh re-opened segment; queries = every grid point + one of wrong dimension; k in {1,2,3,10}; unfiltered search and filtered search with EVERY eligible subset (incl. empty, all, and sets intersecting the exclusion bitmap); requiresFiltering both; fields v, a second 3-dimensional field, an absent field. Exact-class oracle: the returned set of (doc, score) pairs is the image of SOME choice of the k best non-excluded eligible vectors (contains every pair strictly better than the k-th best score, nothing worse, tie count consistent), every pair is a true score of one of that document's vectors; wrong dimension / no vectors -> empty; num_vectors statistic == indexed vectors. Also a 600-document lattice with TWO vector fields (1206 vectors in the batch, fewer than 1000 per field: exact-class oracle on both). Clustered class: a 1200-document lattice (IVF index) with exclusions {none, 4 docs, every third} x eligible sets {none(unfiltered), empty, 1 doc, just below / above one half (both selector kinds), sparse, all-but-one, all, exactly the documents that have a vector (the lattice ends with one document without), three quarters with a hole inside} x k in {1,10}: soundness only (true scores, not excluded, eligible, <= k). Non-trivial = batch with >= 2 vectors.",
 		Assumptions: []string{"the vector engine is the pure-Go stand-in (DESIGN 3.4): exact brute force for flat indexes, deterministic IVF; real FAISS numerics are not covered", "vector ids contain 31 random bits; rand is seeded by the harness, id collisions are outside the alphabet"},
 		Bounds:      map[string]string{"quick": "N<=3", "thorough": "N<=4 (reduced menu for N=4)"},
 		New:         func() interface{} { return &VSCase{} },
@@ -272,8 +283,9 @@ func init() {
 			for _, m := range enum.Metrics[:2] {
 				emit(VSCase{Lattice: 1200, Metric: m})
 				emit(VSCase{Lattice: 900, Metric: m})
-				emit(VSCase{Lattice: 989, Metric: m}) // 989 documents + 11 second vectors = exactly 1000 vectors
-				emit(VSCase{Lattice: 988, Metric: m}) // 999 vectors
+				emit(VSCase{Lattice: 989, Metric: m})                  // 989 documents + 11 second vectors = exactly 1000 vectors
+				emit(VSCase{Lattice: 988, Metric: m})                  // 999 vectors
+				emit(VSCase{Lattice: 600, Metric: m, TwoFields: true}) // 606 + 600 vectors in two fields: both exact
 			}
 		},
 		Run: func(ci interface{}, a *run.Acc) {
